@@ -21,8 +21,9 @@ def main():
     ap.add_argument("--only")
     ap.add_argument("--tier", default="quick")
     ap.add_argument("--props")
+    ap.add_argument("--dir", default="seeded", help="seeded (breaking changes) or harmless (behaviour-preserving changes: no check may raise an alarm)")
     args = ap.parse_args()
-    sdir = os.path.join(ROOT, "seeded")
+    sdir = os.path.join(ROOT, args.dir)
     ids = sorted(d for d in os.listdir(sdir) if os.path.isdir(os.path.join(sdir, d)))
     if args.only:
         ids = [i for i in ids if i == args.only]
